@@ -77,6 +77,11 @@ func (d *Deriver) depthOf(n *Node) int {
 // enforced, so the result is not necessarily in the language - both parsers
 // are asked the same question either way.
 func (d *Deriver) Derive(ch Chooser, budget int) ([]byte, []Site) {
+	return d.DeriveFrom(d.G.Rules[0], ch, budget)
+}
+
+// DeriveFrom derives a string of the language of the given rule.
+func (d *Deriver) DeriveFrom(start *Rule, ch Chooser, budget int) ([]byte, []Site) {
 	var out []byte
 	var sites []Site
 	var gen func(n *Node, budget int)
@@ -143,7 +148,7 @@ func (d *Deriver) Derive(ch Chooser, budget int) ([]byte, []Site) {
 			out = utf8.AppendRune(out, rs[ch.Intn(len(rs))])
 		}
 	}
-	gen(d.G.Rules[0].Expr, budget)
+	gen(start.Expr, budget)
 	return out, sites
 }
 
